@@ -110,6 +110,13 @@ def run_property(mod, tier, seed, replay=None):
     coq = build_coq(mod.PROPS)
     if not coq["ok"]:
         notes.append("proof side: " + coq["detail"])
+    elif tier == "thorough":
+        ok, detail = run_coqchk(mod.PROPS)
+        notes.append(detail)
+        if not ok:
+            coq["ok"] = False
+            coq["detail"] = detail
+            coq["failing"] = "coqchk on Props/%s" % (mod.PROPS if isinstance(mod.PROPS, str) else ",".join(mod.PROPS))
     # 2. model driver and harness (from /repo's current working tree)
     build_driver()
     ok, out = build_harness()
